@@ -263,7 +263,14 @@ mod verif_c01_recursive_step {
             install_recursive_entry(&pool);
             let _pre = build_path(&pool, &ix, sh);
             add_background(&pool, &ix);
-            let (inside, jx) = any_inside::<Size4KiB>(&ix);
+            // every address of the mapped page: the indices below a huge leaf are symbolic too
+            let (inside, jx) = if sh.d == 1 && sh.end == HUGE {
+                any_inside::<Size1GiB>(&ix)
+            } else if sh.d == 2 && sh.end == HUGE {
+                any_inside::<Size2MiB>(&ix)
+            } else {
+                any_inside::<Size4KiB>(&ix)
+            };
             let w_in = hw_walk_ix(&pool, &jx, inside);
             kani::assume(w_in.kind != MALFORMED);
             let (fk, fs, f_pre) = any_slot(&pool);
